@@ -51,10 +51,12 @@ def check(run, repo, world):
     spc = reg("dali.gear.general._SpecialCommand", "_opcodes")
     dev = reg("dali.device.general._StandardDeviceCommand", "_opcodes")
     ins = reg("dali.device.general._StandardInstanceCommand", "_opcodes")
-    run.floor("standard gear registry keys", len(std), 270)
-    run.floor("special gear opcodes", len(spc), 18)
-    run.floor("device opcodes", len([k for k in dev if k is not None]), 43)
-    run.floor("instance opcodes", len([k for k in ins if k is not None]), 52)
+    # (sizes are reported, not floored: R-SPEC checks every key itself)
+    run.analysed["standard gear registry keys"] = len(std)
+    run.analysed["special gear opcodes"] = len(spc)
+    run.analysed["device opcodes"] = len([k for k in dev if k is not None])
+    run.analysed["instance opcodes"] = len([k for k in ins
+                                            if k is not None])
     covered = set()
     run.rule("R-SPEC", "command table == transcribed IEC 62386 tables (both "
              "directions)")
